@@ -192,3 +192,79 @@ func (e *Engine) guardCoverage() []OblResult {
 	}
 	return out
 }
+
+// fieldWriters lists, for every struct type that has a guarded_by declaration, the fields NOT declared guarded
+// that are written (through a pointer that is not a fresh allocation of the same function) and by whom.
+func (e *Engine) fieldWriters() map[string][]string {
+	out := map[string][]string{}
+	guardedStructs := map[string]bool{}
+	for _, g := range e.contracts.Guards {
+		if !g.Private {
+			guardedStructs[g.Pkg+"."+g.Struct] = true
+		}
+	}
+	for fn := range ssautil.AllFunctions(e.prog) {
+		if !e.inModule(fn) || fn.Synthetic != "" || len(fn.Blocks) == 0 {
+			continue
+		}
+		if p := fn.Pos(); p.IsValid() && strings.HasSuffix(e.prog.Fset.Position(p).Filename, "_test.go") {
+			continue
+		}
+		for _, b := range fn.Blocks {
+			for _, in := range b.Instrs {
+				st, ok := in.(*ssa.Store)
+				if !ok {
+					continue
+				}
+				fa, ok := st.Addr.(*ssa.FieldAddr)
+				if !ok {
+					continue
+				}
+				if _, fresh := fa.X.(*ssa.Alloc); fresh {
+					continue
+				}
+				t := fa.X.Type().Underlying().(*types.Pointer).Elem()
+				n, ok := t.(*types.Named)
+				if !ok || n.Obj().Pkg() == nil || !guardedStructs[n.Obj().Pkg().Path()+"."+n.Obj().Name()] {
+					continue
+				}
+				if e.guardOf(t, fa.Field) != nil || e.privateField(t, fa.Field) {
+					continue
+				}
+				// construction phase: functions whose contract says role init
+				if fc := e.contracts.lookupFn(fn); fc != nil && fc.Role == "init" {
+					continue
+				}
+				key := n.Obj().Name() + "." + t.Underlying().(*types.Struct).Field(fa.Field).Name()
+				out[key] = append(out[key], shortFuncName(fn))
+			}
+		}
+	}
+	return out
+}
+
+// guardClassification: every field of a struct with guarded state that is written after the construction
+// phase is declared guarded (or explicitly private): a new shared field cannot slip in unclassified.
+func (e *Engine) guardClassification() []OblResult {
+	fw := e.fieldWriters()
+	var ks []string
+	for k := range fw {
+		ks = append(ks, k)
+	}
+	sort.Strings(ks)
+	r := OblResult{Name: "guard-classification#(module)", Kind: "guard-coverage", Func: "(module)", Props: []string{"C08"}, Solver: "callgraph",
+		Desc: "every field of a struct with guarded state that is written outside the construction phase (functions of role init, fresh objects) is declared guarded_by or private"}
+	if len(ks) == 0 {
+		r.Verdict = "discharged"
+	} else {
+		r.Verdict = "failed-nomodel"
+		var parts []string
+		for _, k := range ks {
+			ws := fw[k]
+			sort.Strings(ws)
+			parts = append(parts, k+" written by "+strings.Join(ws, ", "))
+		}
+		r.Raw = "unclassified fields: " + strings.Join(parts, "; ")
+	}
+	return []OblResult{r}
+}
